@@ -39,6 +39,8 @@ ASSUMPTIONS = [
 
 FLAGS = [{}, {"no_explicit_cast": True}, {"no_data_loss": True}, {"no_explicit_cast": True, "no_data_loss": True}]
 TARGETS = [n for n in tg.PLAIN_LEAVES if n not in ("Any", "Unreg", "Sequence", "Mapping", "Iterable")] + ["MyDict", "bytearray"]
+# parametrised containers (their items are converted by the rule, after / instead of the conversion of the container)
+TARGETS += ["T(Set[str])", "T(Set[int])", "T(FrozenSet[int])", "T(List[int])", "T(List[str])", "T(Tuple[int, ...])", "T(Dict[str, int])", "T(Set[Tuple[int, int]])"]
 EXTRA_VALUES = ["[1]", "[1, 2]", "(1, 2)", "{1, 2}", "{'a': 1, 'b': 2}", "[1.5]", "['a', 'b']", "'1,2'", "'12:00:00'",
                 "'2020-01-02 00:00:00'", "'2020-01-02T10:11:12'", "datetime(2020,1,2,10,11,12)", "1.5", "2.0", "'2.0'", "'2.5'",
                 "Decimal('2.0')", "Decimal('2.5')", "b'2.5'", "b'\\xff\\xfe'", "'yes'", "'f'", "'T'", "'2'", "2", "-1", "'maybe'",
@@ -402,13 +404,15 @@ def _from(cls, vx, oi):
 def _dataclass(acc):
     """unknown keys under no_data_loss (Options: no_data_loss implies addition=False); list input for a data class"""
     for base in ("Schema", "DataClass"):
-        src = f"class S({base}):\n    a: int\n    b: str = 'd'\n"
+        # field a answers to two further spellings (a2, a3): keys of the field, never unknown keys
+        src = f"class S({base}):\n    a: int = Field(alias_from=['a2', 'a3'])\n    b: str = 'd'\n"
         env = dict(_NS)
         env["__name__"] = "utmc.ns"
         exec(src, env)
         s_cls = env["S"]
         _NS["S"] = s_cls            # the input expressions below name the class
         for vx in ("{'a': 1}", "{'a': 1, 'zz': 2}", "{'a': '1', 'zz': 2, 'yy': 3}", "[{'a': 1}]", "[{'a': 1}, {'a': 2}]", "'a=1&zz=2'",
+                   "{'a2': 1}", "{'a2': 1, 'zz': 2}", "{'a3': '1', 'zz': 2, 'yy': 3}", "{'a2': 1, 'b': 'x', 'zz': 2}",
                    "'{\"a\": 1}'", "{'a': 1.5}", "{'a': '1.5'}", "[('a', 1)]", "(('a', 1),)", "[{'a': 1, 'b': 'x'}]", "[{'a': 1, 'b': 'x'}, {'a': 2, 'b': 'y'}]",
                    # elements that already are instances of the class
                    "[S(a=1)]", "[S(a=1), S(a=2)]", "(S(a=1), {'a': 2})", "[S(a=1), 5, 6]", "[{'a': 1}, S(a=2)]",
@@ -431,7 +435,7 @@ def _dataclass(acc):
                                   f"try:\n    print(type_transform({vx}, S)); sys.exit(0)\nexcept Exception as e:\n    print('fails without flags:', e); sys.exit(1)\n")
 
             def v(kind, msg):
-                acc.violation(f"C12|{base}|{kind}|{_vshape(x)}", f"S.__from__({vx}) for S({base}: a: int, b: str = 'd'): {msg}",
+                acc.violation(f"C12|{base}|{kind}|{_vshape(x)}", f"S.__from__({vx}) for S({base}: a: int = Field(alias_from=['a2', 'a3']), b: str = 'd'): {msg}",
                               "import sys\nsys.path.insert(0, '/verif')\nfrom utmc.ns import *\n" + src +
                               f"for f in ({{}}, {{'no_explicit_cast': True}}, {{'no_data_loss': True}}, {{'no_explicit_cast': True, 'no_data_loss': True}}):\n"
                               f"    try: print(f, S.__from__({vx}, options=Options(**f)))\n"
@@ -476,14 +480,14 @@ def _dataclass(acc):
                 except Exception as e:
                     r2 = ("err", e)
                 acc.transitions += 1
-                if r2[0] == "ok" and isinstance(x, dict) and (set(x) - {"a", "b"}):
+                if r2[0] == "ok" and isinstance(x, dict) and (set(x) - {"a", "b", "a2", "a3"}):
                     v(f"no-data-loss-unknown-keys-explicit-addition-none-{'+'.join(sorted(FLAGS[oi]))}",
-                      f"unknown keys {sorted(set(x) - {'a', 'b'})} were dropped silently under Options(addition=None, **{FLAGS[oi]})")
+                      f"unknown keys {sorted(set(x) - {'a', 'b', 'a2', 'a3'})} were dropped silently under Options(addition=None, **{FLAGS[oi]})")
             for oi in (2, 3):
                 r = res[oi]
                 flags = "+".join(sorted(FLAGS[oi]))
-                if r[0] == "ok" and isinstance(x, dict) and (set(x) - {"a", "b"}):
-                    v(f"no-data-loss-unknown-keys-{flags}", f"unknown keys {sorted(set(x) - {'a', 'b'})} were dropped silently under {flags}")
+                if r[0] == "ok" and isinstance(x, dict) and (set(x) - {"a", "b", "a2", "a3"}):
+                    v(f"no-data-loss-unknown-keys-{flags}", f"unknown keys {sorted(set(x) - {'a', 'b', 'a2', 'a3'})} were dropped silently under {flags}")
                 if r[0] == "ok" and isinstance(x, list) and len(x) > 1:
                     v(f"no-data-loss-collapse-{flags}", f"a list of {len(x)} mappings became one instance under {flags}")
             acc.sample(dict(target=base, value=vx, results=[r[0] for r in res]))
